@@ -33,7 +33,10 @@ ERRMAP = {"DuplicateSectionError": "ParserError", "DuplicateOptionError": "Parse
 
 def gen_text(rng):
     words = ["a", "key", "Key", "a b", "x=y", "v:1", "", " ", "#c", ";c", "[s]", "[t", "]", "é", "\t", "%", "%(a)s", "%%", "[]", "[ s ]",
-             "DEFAULT", " ", " x", "=", ":", "\x0c", "\x1f", "\x85", "tail "]
+             "DEFAULT", " ", " x", "=", ":", "\x0c", "\x1f", "\x85", "tail ",
+             # option values with comment prefixes after a blank, delimiters, interpolation syntax, trailing backslash, inner blanks
+             "Fedora ;Server", "a #b", "a ; b", "a;b", " ;x", " #x", "x = y", "x: y", "trailing" + chr(92), "t\tb", "nb\u00a0sp",
+             "L" + "o" * 300]
     lines = []
     for _ in range(rng.randint(0, 9)):
         r = rng.random()
